@@ -10,6 +10,82 @@ import (
 
 func init() {
 	vRegister("H_defspec", H_defspec)
+	vRegister("H_defspec_names", H_defspec_names)
+}
+
+// vNamePairs: argument names that contain one another or are contained in the
+// `[OPTIONS]` prefix of the synthesised spec.
+var vNamePairs = [][2]string{{"XY", "X"}, {"X", "XY"}, {"OPT", "ION"}, {"FILES", "FILE"}, {"S", "OPTIONS_"}, {"A_1", "A"}}
+
+// H_defspec_names: the synthesised spec lists every argument, in declaration order,
+// whatever the names look like.
+func H_defspec_names() {
+	pair := vNamePairs[vParamInt("pair")]
+	withOpt := vParamInt("withopt") == 1
+	argv := vArgvFor(vParamString("profile"))
+	vNoHelp(argv)
+	explicit := pair[0] + " " + pair[1]
+	if withOpt {
+		explicit = "[OPTIONS] " + explicit
+	}
+	type res struct {
+		ran      int
+		err      bool
+		panicked bool
+		a        bool
+		x, y     []string
+		help     string
+	}
+	run := func(spec string) (r res) {
+		buf := &vBuf{}
+		stdErr = buf
+		stdOut = vDiscard{}
+		exiter = func(code int) { panic(vExitPanic{code}) }
+		app := App("app", "")
+		app.ErrorHandling = flag.ContinueOnError
+		app.Spec = spec
+		var a *bool
+		if withOpt {
+			a = app.Bool(BoolOpt{Name: "a aa"})
+		}
+		x := app.Strings(StringsArg{Name: pair[0]})
+		y := app.Strings(StringsArg{Name: pair[1]})
+		app.Action = func() {
+			r.ran++
+			if a != nil {
+				r.a = *a
+			}
+			r.x = append([]string(nil), *x...)
+			r.y = append([]string(nil), *y...)
+		}
+		func() {
+			defer func() {
+				if p := recover(); p != nil {
+					r.panicked = true
+				}
+			}()
+			if e := app.doInit(); e != nil {
+				panic(e)
+			}
+			app.PrintHelp()
+			r.help = buf.s
+			stdErr = vDiscard{}
+			r.err = app.Run(append([]string{"app"}, argv...)) != nil
+		}()
+		return
+	}
+	implicit := run("")
+	expl := run(explicit)
+	vObserve("implicit.ran", implicit.ran)
+	vObserve("explicit.ran", expl.ran)
+	vAssert(!implicit.panicked && !expl.panicked, "Run panicked")
+	vAssert(implicit.ran == expl.ran && implicit.err == expl.err, "C16: a spec-less command accepts a different set of command lines than `[OPTIONS] ARG...`")
+	if implicit.ran == 1 {
+		vCover("accepted")
+		vAssert(implicit.a == expl.a && vEqStrs(implicit.x, expl.x) && vEqStrs(implicit.y, expl.y), "C16: a spec-less command binds different values than `[OPTIONS] ARG...`")
+	}
+	want := "\nUsage: app " + explicit + "\n\n"
+	vAssert(strings.HasPrefix(implicit.help, want), "C16: the usage line of a spec-less command does not list every argument in declaration order")
 }
 
 func H_defspec() {
@@ -54,12 +130,25 @@ func H_defspec() {
 	}
 	argv := vArgvFor(vParamString("profile"))
 	vNoHelp(argv)
-	implicit := vRunTable(vAppCfg{spec: "", declMask: mask, policy: flag.ContinueOnError, wantHelp: true}, argv)
+	withEnv := vParamInt("env") == 1
+	if withEnv {
+		// every declared option and argument is backed by an environment variable; a
+		// symbolic subset of them is set
+		vEnvCandidates = 15
+		vSymbolicEnv()
+		if vNondetBool("env.VX") {
+			vSetenv("VX", "ex")
+		}
+		if vNondetBool("env.VY") {
+			vSetenv("VY", "ey")
+		}
+	}
+	implicit := vRunTable(vAppCfg{spec: "", declMask: mask, policy: flag.ContinueOnError, wantHelp: true, envAll: withEnv, argEnv: withEnv}, argv)
 	var expl vOutcome
 	if explicit == "" {
 		expl = implicit // the explicit spec of an empty declaration set is the empty spec itself
 	} else {
-		expl = vRunTable(vAppCfg{spec: explicit, declMask: mask, policy: flag.ContinueOnError, wantHelp: true}, argv)
+		expl = vRunTable(vAppCfg{spec: explicit, declMask: mask, policy: flag.ContinueOnError, wantHelp: true, envAll: withEnv, argEnv: withEnv}, argv)
 	}
 	vObserveOutcome("implicit", implicit)
 	vObserveOutcome("explicit", expl)
